@@ -338,7 +338,7 @@ func (c *Ctx) contractCall(fr *Frame, st *State, site ssa.Instruction, fn *ssa.F
 				continue
 			}
 			v := post.evalTop(&Clause{Src: e, Expr: ex})
-			conds = append(conds, not(eq("r", v.Term)))
+			conds = append(conds, or(eq("r", "0"), not(eq("r", v.Term)))) // the nil reference is no object
 		}
 		c.assumeAlways(fmt.Sprintf("(forall ((r Int)) (! (=> %s (= (select %s r) (select %s r))) :pattern ((select %s r))))", and(conds...), pk.name, pk.old, pk.name))
 	}
@@ -957,6 +957,7 @@ func (c *Ctx) builtinAppend(fr *Frame, st *State, site *ssa.Call, args []*Val, r
 	nl := c.defineInt("alen", app("+", sl, tl))
 	fits := c.define("fits", "Bool", app("<=", nl, sc))
 	fref := c.allocRef(st, "grown")
+	c.assumeAlways(eq(app("rtype", fref), num(int64(c.prog.typeTag(rt)))))
 	ncap := c.fresh("acap", "Int")
 	c.assumeAlways(and(app(">=", ncap, nl), app("<=", ncap, maxObjSize)))
 	rref := c.define("aref", "Int", ite(fits, sr, fref))
